@@ -281,7 +281,14 @@ struct Ct {
     u64 v;
     bool ok;
 };
-inline constexpr std::size_t kBlock = 256;
+inline constexpr std::size_t kBlock = 1024;
+
+// a run of obligations whose results the compiler produced (v != nullptr) or one obligation it could not evaluate
+struct Seg {
+    std::size_t lo, hi;
+    u64 const* v;
+};
+[[gnu::noinline]] inline void add_seg(std::vector<Seg>& out, std::size_t lo, std::size_t hi, u64 const* v) { out.push_back(Seg{lo, hi, v}); }
 
 template <typename F, typename D, std::size_t Lo, std::size_t Hi>
 constexpr auto eval_block() -> std::array<u64, Hi - Lo>
@@ -297,30 +304,39 @@ template <typename F, typename D, std::size_t Lo, std::size_t Hi>
 struct Block {
     // is "all obligations Lo..Hi" a constant expression?  (dependent, therefore a soft failure)
     static constexpr bool ok = requires { typename std::integral_constant<int, (eval_block<F, D, Lo, Hi>(), 0)>; };
-    static void fill(Ct* out)
+    static void segs(std::vector<Seg>& out)
     {
         if constexpr (ok) {
             static constexpr auto v = eval_block<F, D, Lo, Hi>();
-            for (std::size_t i = Lo; i < Hi; ++i) { out[i] = Ct{v[i - Lo], true}; }
+            add_seg(out, Lo, Hi, v.data());
         } else if constexpr (Hi - Lo == 1) {
-            out[Lo] = Ct{0, false};
+            add_seg(out, Lo, Hi, nullptr);
         } else {
             constexpr auto mid = Lo + (Hi - Lo) / 2;
-            Block<F, D, Lo, mid>::fill(out);
-            Block<F, D, mid, Hi>::fill(out);
+            Block<F, D, Lo, mid>::segs(out);
+            Block<F, D, mid, Hi>::segs(out);
         }
     }
 };
 template <typename F, typename D, std::size_t... I>
-void fill_blocks(Ct* out, std::index_sequence<I...> /*unused*/)
+void all_segs(std::vector<Seg>& out, std::index_sequence<I...> /*unused*/)
 {
-    (Block<F, D, I * kBlock, ((I + 1) * kBlock < D::size ? (I + 1) * kBlock : D::size)>::fill(out), ...);
+    (Block<F, D, I * kBlock, ((I + 1) * kBlock < D::size ? (I + 1) * kBlock : D::size)>::segs(out), ...);
+}
+inline void apply_segs(std::vector<Seg> const& segs, std::vector<Ct>& out, std::size_t n)
+{
+    out.assign(n, Ct{0, false});
+    for (auto const& s : segs) {
+        if (s.v == nullptr) { continue; }
+        for (std::size_t i = s.lo; i < s.hi; ++i) { out[i] = Ct{s.v[i - s.lo], true}; }
+    }
 }
 template <typename F, typename D>
 void ct_fill(std::vector<Ct>& out)
 {
-    out.assign(D::size, Ct{0, false});
-    fill_blocks<F, D>(out.data(), std::make_index_sequence<(D::size + kBlock - 1) / kBlock>{});
+    std::vector<Seg> segs;
+    all_segs<F, D>(segs, std::make_index_sequence<(D::size + kBlock - 1) / kBlock>{});
+    apply_segs(segs, out, D::size);
 }
 
 // run time: argument words laundered through volatile
@@ -707,8 +723,6 @@ C13_SATCAST(u32, std::uint32_t, i8, std::int8_t)
 C13_SATCAST(i64, std::int64_t, i32, std::int32_t)
 C13_SATCAST(u64, std::uint64_t, i64, std::int64_t)
 C13_SATCAST(i64, std::int64_t, u64, std::uint64_t)
-C13_SATCAST(i8, std::int8_t, u8, std::uint8_t)
-C13_SATCAST(u8, std::uint8_t, i8, std::int8_t)
 C13_SATCAST(i16, std::int16_t, u32, std::uint32_t)
 C13_SATCAST(u64, std::uint64_t, u16, std::uint16_t)
 C13_SATCAST(i64, std::int64_t, i16, std::int16_t)
